@@ -740,6 +740,14 @@ def validate_shapeArray (s : List Nat) : Except Reject Unit :=
   rejectIf (decide ((s.filter fun e => e != 1).length > 1))
 
 
+/-- `tensor.tenfun`: `len(inputs) == 1 and nfunin == 2` is the binary case; otherwise `nfunin != 1` raises -/
+def validate_tenfunArity (nargs others : Nat) : Except Reject Unit :=
+  if others == 1 && nargs == 2 then .ok () else rejectIf (nargs != 1)
+
+/-- `sptensor._set_subscripts`: `newsubs.shape[1] < self.ndims` raises before anything is matched or written -/
+def validate_setSubsWidth (N width : Nat) : Except Reject Unit := rejectIf (decide (width < N))
+
+
 namespace Pinned
 
 /-- pinned `tt_dimscheck` after forming the array: only the sign test -/
